@@ -1081,9 +1081,12 @@ def conformity_problems(cls, history, labelling, start, delta, alphas, profile_s
     bad = {k: x for k, x in flat.items() if not (isinstance(x, (int, float)) and -1 - EPS <= x <= 1 + EPS)}
     if bad:
         pr.append(('C20.range', '%s: scores outside [-1,1]: %r (labels %r)' % (call, bad, labelling)))
-    # renaming label values
+    # renaming label values (alternately to fresh strings and to small ints including 0: a categorical value is just a name)
     vals = sorted(set(x for d in labelling.values() for x in d.values()), key=repr)
-    vmap = dict(zip(vals, ['L%d' % (len(vals) - i) for i in range(len(vals))]))
+    if (start + delta + len(history)) % 2:
+        vmap = dict(zip(vals, ['L%d' % (len(vals) - i) for i in range(len(vals))]))
+    else:
+        vmap = dict(zip(vals, range(len(vals))))
     lab2 = {name: {n: vmap[x] for n, x in d.items()} for name, d in labelling.items()}
     G2, _, _ = build(cls, history, attrs_of(lab2))
     res2, exc2 = conf_call(G2, start, delta, alphas, labels, profile_size, path_type)
@@ -1098,15 +1101,18 @@ def conformity_problems(cls, history, labelling, start, delta, alphas, profile_s
     res3, exc3 = conf_call(G3, start, delta, alphas, labels, profile_size, path_type)
     if exc3 or res3 is None or not same_scores(flat, flat_scores(res3, alphas, profiles), nmap):
         pr.append(('C20.node_renaming', '%s: %r; after renaming nodes by %r: %r' % (call, res, nmap, exc3 or res3)))
-    # one shared label value
-    if len(vals) == 1:
+    # a profile all of whose labels have one shared value: 1 for a node that reaches another node, else 0
+    for p in profiles:
+        names = [x for x in p.split('_')] if all(x in labelling for x in p.split('_')) else None
+        if names is None or any(len(set(labelling[x].values())) != 1 for x in names):
+            continue
         for n in exp_nodes:
-            reaches = any(p[-1][1] != n for p in brute_paths(ctx, n, None, start, min(end, ctx.ids[-1])))
+            reaches = any(q[-1][1] != n for q in brute_paths(ctx, n, None, start, min(end, ctx.ids[-1])))
             want = 1.0 if reaches else 0.0
-            wrong = {k: x for k, x in flat.items() if k[2] == n and abs(x - want) > 1e-9}
+            wrong = {k: x for k, x in flat.items() if k[2] == n and k[1] == p and abs(x - want) > 1e-9}
             if wrong:
-                pr.append(('C20.homogeneous_labels', '%s: all nodes share one label, node %r %s, expected %r, got %r'
-                           % (call, n, 'reaches another node' if reaches else 'reaches no other node', want, wrong)))
+                pr.append(('C20.homogeneous_labels', '%s: all nodes share one value of %r, node %r %s, expected %r, got %r'
+                           % (call, names, n, 'reaches another node' if reaches else 'reaches no other node', want, wrong)))
     return pr, True
 
 
@@ -1208,8 +1214,11 @@ def c20_conformity(tier, seed):
             two = dict(labs[-1])
             two['grp'] = {n: rng.choice('pq') for n in ctx.nodes}
             labs.append(two)
-        for li, lab in enumerate(labs):
-            ps = 2 if len(lab) > 1 else 1
+        cases = [(lab, 2 if len(lab) > 1 else 1) for lab in labs]
+        if gi % 4 == 1 and tag != 'F':
+            # two attributes scored separately (profile_size 1): `lab` shared by all nodes, `grp` mixed - a profile depends on its own labels only
+            cases.append(({'lab': dict(labs[0]['lab']), 'grp': {n: rng.choice('pq') for n in ctx.nodes}}, 1))
+        for li, (lab, ps) in enumerate(cases):
             lj = _l(sorted((name, sorted(d.items(), key=repr)) for name, d in lab.items()))
             # planted walks: delta_conformity against the oracle for the homogeneous labelling and two path types; the sliding form
             # (compared with the per-t calls of the real code) for the mixed labelling too and all five path types, where the
